@@ -9,6 +9,25 @@ pub fn format_stub(_args: core::fmt::Arguments<'_>) -> String {
     String::new()
 }
 
+/// Loop-free stand-ins for UTF-8 validation: they ASSERT (solver-chosen index) that the bytes are 7-bit,
+/// where they are exact.
+#[cfg(kani)]
+pub fn from_utf8_ascii(v: &[u8]) -> Result<&str, core::str::Utf8Error> {
+    let i: usize = kani::any();
+    if i < v.len() {
+        assert!(v[i] < 0x80, "STUB: from_utf8 stub is only exact on 7-bit input");
+    }
+    Ok(unsafe { core::str::from_utf8_unchecked(v) })
+}
+#[cfg(kani)]
+pub fn string_from_utf8_ascii(v: Vec<u8>) -> Result<String, std::string::FromUtf8Error> {
+    let i: usize = kani::any();
+    if i < v.len() {
+        assert!(v[i] < 0x80, "STUB: String::from_utf8 stub is only exact on 7-bit input");
+    }
+    Ok(unsafe { String::from_utf8_unchecked(v) })
+}
+
 macro_rules! harnesses {
     ($( $(#[$attr:meta])* $name:ident, unwind = $u:literal, raw = $k:literal, $f:expr; )*) => {
         $(
@@ -36,20 +55,89 @@ harnesses! {
     c13_name_n3, unwind = 6, raw = 4, |r| check_xml_name::<3>(r);
     #[kani::stub(alloc::fmt::format, format_stub)]
     c13_name_n4, unwind = 7, raw = 5, |r| check_xml_name::<4>(r);
-    c13_esc_list, unwind = 9, raw = 3, |r| check_se_escape(r, true);
-    c13_esc_item, unwind = 9, raw = 3, |r| check_se_escape(r, false);
+    #[kani::stub(core::str::from_utf8, from_utf8_ascii)]
+    #[kani::stub(alloc::string::String::from_utf8, string_from_utf8_ascii)]
+    c13_esc_list, unwind = 9, raw = 3, |r| check_se_escape(r, true, None);
+    #[kani::stub(core::str::from_utf8, from_utf8_ascii)]
+    #[kani::stub(alloc::string::String::from_utf8, string_from_utf8_ascii)]
+    c13_esc_item, unwind = 9, raw = 3, |r| check_se_escape(r, false, None);
+    #[kani::stub(core::str::from_utf8, from_utf8_ascii)]
+    #[kani::stub(alloc::string::String::from_utf8, string_from_utf8_ascii)]
+    c13_esc_list_t0l0, unwind = 9, raw = 3, |r| check_se_escape(r, true, Some((0, 0)));
+    #[kani::stub(core::str::from_utf8, from_utf8_ascii)]
+    #[kani::stub(alloc::string::String::from_utf8, string_from_utf8_ascii)]
+    c13_esc_list_t0l1, unwind = 9, raw = 3, |r| check_se_escape(r, true, Some((0, 1)));
+    #[kani::stub(core::str::from_utf8, from_utf8_ascii)]
+    #[kani::stub(alloc::string::String::from_utf8, string_from_utf8_ascii)]
+    c13_esc_list_t0l2, unwind = 9, raw = 3, |r| check_se_escape(r, true, Some((0, 2)));
+    #[kani::stub(core::str::from_utf8, from_utf8_ascii)]
+    #[kani::stub(alloc::string::String::from_utf8, string_from_utf8_ascii)]
+    c13_esc_list_t1l0, unwind = 9, raw = 3, |r| check_se_escape(r, true, Some((1, 0)));
+    #[kani::stub(core::str::from_utf8, from_utf8_ascii)]
+    #[kani::stub(alloc::string::String::from_utf8, string_from_utf8_ascii)]
+    c13_esc_list_t1l1, unwind = 9, raw = 3, |r| check_se_escape(r, true, Some((1, 1)));
+    #[kani::stub(core::str::from_utf8, from_utf8_ascii)]
+    #[kani::stub(alloc::string::String::from_utf8, string_from_utf8_ascii)]
+    c13_esc_list_t1l2, unwind = 9, raw = 3, |r| check_se_escape(r, true, Some((1, 2)));
+    #[kani::stub(core::str::from_utf8, from_utf8_ascii)]
+    #[kani::stub(alloc::string::String::from_utf8, string_from_utf8_ascii)]
+    c13_esc_list_t2l0, unwind = 9, raw = 3, |r| check_se_escape(r, true, Some((2, 0)));
+    #[kani::stub(core::str::from_utf8, from_utf8_ascii)]
+    #[kani::stub(alloc::string::String::from_utf8, string_from_utf8_ascii)]
+    c13_esc_list_t2l1, unwind = 9, raw = 3, |r| check_se_escape(r, true, Some((2, 1)));
+    #[kani::stub(core::str::from_utf8, from_utf8_ascii)]
+    #[kani::stub(alloc::string::String::from_utf8, string_from_utf8_ascii)]
+    c13_esc_list_t2l2, unwind = 9, raw = 3, |r| check_se_escape(r, true, Some((2, 2)));
+    #[kani::stub(core::str::from_utf8, from_utf8_ascii)]
+    #[kani::stub(alloc::string::String::from_utf8, string_from_utf8_ascii)]
+    c13_esc_item_t0l0, unwind = 9, raw = 3, |r| check_se_escape(r, false, Some((0, 0)));
+    #[kani::stub(core::str::from_utf8, from_utf8_ascii)]
+    #[kani::stub(alloc::string::String::from_utf8, string_from_utf8_ascii)]
+    c13_esc_item_t0l1, unwind = 9, raw = 3, |r| check_se_escape(r, false, Some((0, 1)));
+    #[kani::stub(core::str::from_utf8, from_utf8_ascii)]
+    #[kani::stub(alloc::string::String::from_utf8, string_from_utf8_ascii)]
+    c13_esc_item_t0l2, unwind = 9, raw = 3, |r| check_se_escape(r, false, Some((0, 2)));
+    #[kani::stub(core::str::from_utf8, from_utf8_ascii)]
+    #[kani::stub(alloc::string::String::from_utf8, string_from_utf8_ascii)]
+    c13_esc_item_t1l0, unwind = 9, raw = 3, |r| check_se_escape(r, false, Some((1, 0)));
+    #[kani::stub(core::str::from_utf8, from_utf8_ascii)]
+    #[kani::stub(alloc::string::String::from_utf8, string_from_utf8_ascii)]
+    c13_esc_item_t1l1, unwind = 9, raw = 3, |r| check_se_escape(r, false, Some((1, 1)));
+    #[kani::stub(core::str::from_utf8, from_utf8_ascii)]
+    #[kani::stub(alloc::string::String::from_utf8, string_from_utf8_ascii)]
+    c13_esc_item_t1l2, unwind = 9, raw = 3, |r| check_se_escape(r, false, Some((1, 2)));
+    #[kani::stub(core::str::from_utf8, from_utf8_ascii)]
+    #[kani::stub(alloc::string::String::from_utf8, string_from_utf8_ascii)]
+    c13_esc_item_t2l0, unwind = 9, raw = 3, |r| check_se_escape(r, false, Some((2, 0)));
+    #[kani::stub(core::str::from_utf8, from_utf8_ascii)]
+    #[kani::stub(alloc::string::String::from_utf8, string_from_utf8_ascii)]
+    c13_esc_item_t2l1, unwind = 9, raw = 3, |r| check_se_escape(r, false, Some((2, 1)));
+    #[kani::stub(core::str::from_utf8, from_utf8_ascii)]
+    #[kani::stub(alloc::string::String::from_utf8, string_from_utf8_ascii)]
+    c13_esc_item_t2l2, unwind = 9, raw = 3, |r| check_se_escape(r, false, Some((2, 2)));
+    #[kani::stub(core::str::from_utf8, from_utf8_ascii)]
     #[kani::stub(alloc::fmt::format, format_stub)]
     c07_s_k1, unwind = 8, raw = 2, |r| check_de_total(r, 0, 1);
+    #[kani::stub(core::str::from_utf8, from_utf8_ascii)]
     #[kani::stub(alloc::fmt::format, format_stub)]
     c07_s_k2, unwind = 9, raw = 3, |r| check_de_total(r, 0, 2);
+    #[kani::stub(core::str::from_utf8, from_utf8_ascii)]
     #[kani::stub(alloc::fmt::format, format_stub)]
     c07_string_k2, unwind = 9, raw = 3, |r| check_de_total(r, 1, 2);
+    #[kani::stub(core::str::from_utf8, from_utf8_ascii)]
+    #[kani::stub(alloc::string::String::from_utf8, string_from_utf8_ascii)]
     #[kani::stub(alloc::fmt::format, format_stub)]
     c13_ty0_attr, unwind = 40, raw = 3, |r| check_se_type(r, 0, 0);
+    #[kani::stub(core::str::from_utf8, from_utf8_ascii)]
+    #[kani::stub(alloc::string::String::from_utf8, string_from_utf8_ascii)]
     #[kani::stub(alloc::fmt::format, format_stub)]
     c13_ty0_text, unwind = 40, raw = 3, |r| check_se_type(r, 0, 1);
+    #[kani::stub(core::str::from_utf8, from_utf8_ascii)]
+    #[kani::stub(alloc::string::String::from_utf8, string_from_utf8_ascii)]
     #[kani::stub(alloc::fmt::format, format_stub)]
     c13_ty4_key, unwind = 40, raw = 3, |r| check_se_type(r, 4, 0);
+    #[kani::stub(core::str::from_utf8, from_utf8_ascii)]
+    #[kani::stub(alloc::string::String::from_utf8, string_from_utf8_ascii)]
     #[kani::stub(alloc::fmt::format, format_stub)]
     c13_ty5_root, unwind = 40, raw = 3, |r| check_se_type(r, 5, 0);
 }
